@@ -161,8 +161,8 @@ func (x *c12) runHist(h h12) (*res12, string) {
 			return l.Res, ""
 		}
 	}
-	if strings.Contains(se, "stack overflow") || strings.Contains(se, "out of memory") {
-		return &res12{Verdict: "crash", Detail: "the process died: " + head(se, 600)}, ""
+	if goCrash(se) {
+		return &res12{Verdict: "crash", Detail: "the process died while executing this history: " + head(crashLine(se), 400)}, ""
 	}
 	return nil, fmt.Sprintf("worker exited with status %d without a result: %s", exit, tail(se, 2000))
 }
@@ -214,7 +214,9 @@ func (x *c12) sweep(a *agg12, base uint64, first uint64, deadline time.Time, wor
 				} else if x.e.tier == "thorough" && !record && (to/chunk)%2 == 0 {
 					args = append(args, "-deep")
 				}
+			respawn:
 				lines, exit, se, timed := x.spawn(300*time.Second, "100", args...)
+				var crashed *fail12
 				if timed || exit != 0 {
 					// find the in-flight run
 					var infl *line12
@@ -225,15 +227,40 @@ func (x *c12) sweep(a *agg12, base uint64, first uint64, deadline time.Time, wor
 							infl = nil
 						}
 					}
-					a.mu.Lock()
-					if infl != nil && (timed || strings.Contains(se, "stack overflow")) {
-						a.troubleS = fmt.Sprintf("history %d (seed %d) did not finish (timed out=%v): %s", infl.I, infl.Seed, timed, tail(se, 800))
-					} else {
-						a.troubleS = fmt.Sprintf("worker exited with status %d: %s", exit, tail(se, 2000))
+					if infl != nil && !timed && goCrash(se) {
+						// the library (or the harness) crashed the process while executing
+						// this history: obtain the history without executing it and treat
+						// the crash as a failure of class "crash"
+						gargs := append(append([]string{}, args...), "-genonly")
+						for k := range gargs {
+							if gargs[k] == "-from" {
+								gargs[k+1] = fmt.Sprint(infl.I)
+							}
+							if gargs[k] == "-to" {
+								gargs[k+1] = fmt.Sprint(infl.I + 1)
+							}
+						}
+						glines, _, _, _ := x.spawn(60*time.Second, "100", gargs...)
+						for _, gl := range glines {
+							if gl.Ev == "gen" && gl.I == infl.I {
+								var h h12
+								json.Unmarshal(gl.Hist, &h)
+								crashed = &fail12{I: infl.I, Seed: infl.Seed, Profile: infl.Profile, Hist: h,
+									Res: &res12{Seed: infl.Seed, Verdict: "crash", Detail: "the process died while executing this history: " + head(crashLine(se), 400)}}
+							}
+						}
 					}
-					a.mu.Unlock()
-					atomic.StoreInt32(&stop, 1)
-					return
+					if crashed == nil {
+						a.mu.Lock()
+						if infl != nil && timed {
+							a.troubleS = fmt.Sprintf("history %d (seed %d) did not finish within the watchdog", infl.I, infl.Seed)
+						} else {
+							a.troubleS = fmt.Sprintf("worker exited with status %d: %s", exit, tail(se, 2000))
+						}
+						a.mu.Unlock()
+						atomic.StoreInt32(&stop, 1)
+						return
+					}
 				}
 				a.mu.Lock()
 				for i := range lines {
@@ -279,11 +306,44 @@ func (x *c12) sweep(a *agg12, base uint64, first uint64, deadline time.Time, wor
 						a.failures = append(a.failures, &fail12{I: l.I, Seed: l.Seed, Profile: l.Profile, Res: r, Hist: h})
 					}
 				}
+				ncrash := 0
+				if crashed != nil {
+					a.runs++
+					a.failures = append(a.failures, crashed)
+					for _, f := range a.failures {
+						if f.Res.Verdict == "crash" {
+							ncrash++
+						}
+					}
+				}
 				a.mu.Unlock()
+				if crashed != nil && crashed.I+1 < to && ncrash < 20 {
+					for k := range args {
+						if args[k] == "-from" {
+							args[k+1] = fmt.Sprint(crashed.I + 1)
+						}
+					}
+					goto respawn
+				}
 			}
 		}()
 	}
 	wg.Wait()
+}
+
+// goCrash recognises the Go runtime's own fatal exits.
+func goCrash(stderr string) bool {
+	return strings.Contains(stderr, "fatal error: stack overflow") || strings.Contains(stderr, "goroutine stack exceeds") ||
+		strings.Contains(stderr, "panic: ") || strings.Contains(stderr, "fatal error: ")
+}
+
+func crashLine(stderr string) string {
+	for _, l := range strings.Split(stderr, "\n") {
+		if strings.Contains(l, "fatal error") || strings.HasPrefix(l, "panic:") || strings.Contains(l, "stack exceeds") {
+			return l
+		}
+	}
+	return head(stderr, 200)
 }
 
 func strHash64(s string) uint64 {
